@@ -26,6 +26,9 @@ Formats == [
   cl       |-> [max |-> 5, tokens |-> <<"Note: including file: ", "a.h", "\n", "\r", " ", "x.cc", "Program Files", ":", "\\">>],
   makeflags |-> [max |-> 6, tokens |-> <<"--jobserver-auth=", "--jobserver-fds=", "fifo:", "3", ",", "-", "n", " ", "\t", "j", "x", "/", "--", "=">>],
   status   |-> [max |-> 5, tokens |-> <<"%", "s", "t", "p", "r", "u", "f", "o", "c", "e", "w", "E", "W", "P", "x", "[", "/", " ", "\n", <<27>>, "[K">>],
+  \* what the real file reader (util.cc ReadFile behind RealDiskInterface) is pointed at: a directory, nothing, an empty file,
+  \* a small one, one just over the 64 KiB read block; as a file read directly and as the target of an `include`
+  readfile |-> [max |-> 2, tokens |-> <<"dir", "missing", "empty", "small", "blk", "inc:">>],
   buildlog |-> [max |-> 6, tokens |-> <<"# ninja log v7\n", "# ninja log v6\n", "# ninja log v", "1", "\t", "\n", "a", "f", "-", " ", "9999999999999999999999", "# ninja log v8\n", <<0>>>>],
   depslog  |-> [max |-> 5, tokens |-> << <<8, 0, 0, 0>>, <<12, 0, 0, 128>>, <<4, 0, 0, 128>>, <<8, 0, 0, 128>>, <<16, 0, 0, 128>>, <<5, 0, 0, 0>>, <<4, 0, 0, 0>>, <<0, 0, 0, 0>>,
                                          <<255, 255, 255, 255>>, <<254, 255, 255, 255>>, <<97, 0, 0, 0>>, <<0>>, <<97, 98>>, <<1, 0, 0, 0>>, <<255, 255, 255, 127>>, <<0, 0, 8, 0>>, <<7, 0, 0, 0>>, <<0, 0, 0>> >>]
